@@ -38,7 +38,20 @@ def main(argv):
                 cfg['fac'] = 'import' if cfg.get('fac') == 'create' else 'create'
                 cfg['sf_prefix'] = rng.choice([None, ['Zed']])
             steps.append([mi, cfg])
-        hists.append({'models': models, 'steps': steps})
+        hists.append({'models': models, 'steps': steps, 'share_builder': len(hists) % 2 == 1})
+    # revisions of one model (same names, altered signatures) parsed afresh for every build and dropped afterwards, and one
+    # Builder reused with alternating facilities origin: whatever is remembered under a name, an object identity or in the
+    # builder instance across builds shows here
+    from checks.shellrun import sibling
+    for k in range(nh // 4):
+        b = GB.gen_case(rng)
+        rev = sibling({'file': b['file'], 'cfg': b['cfg']})
+        steps = []
+        for s in range(rng.randint(6, 10)):
+            cfg = dict(b['cfg'])
+            cfg['fac'] = 'create' if (s + k) % 2 == 0 else 'import'
+            steps.append([s % 2 if rng.random() < 0.8 else rng.randrange(2), cfg])
+        hists.append({'models': [b['file'], rev['file']], 'steps': steps, 'share_builder': True, 'drop': k % 2 == 0})
     impl = run_impl('build_worker', {'cases': [dict(op='history', **h) for h in hists]}, timeout=3000)['results']
     flat = [(hi, si, h['models'][s[0]], s[1]) for hi, h in enumerate(hists) for si, s in enumerate(h['steps'])]
     model = run_model([[601, BC.templates_for(cfg.get('sf_prefix')), G.json_sx(dznjson.to_json(f)), BC.cfg_sx(cfg)] for _, _, f, cfg in flat],
@@ -80,6 +93,53 @@ def main(argv):
                     nv += 1
                     rep.violation(problem, {'history': h, 'step': si, 'changed': res['changed']}, failing_input=failing)
                 break
+    # ---- identity collisions: model B presented in an object at the address a dropped model A had
+    def revision(case):
+        import copy
+        r = copy.deepcopy(case)
+
+        def walk(ds):
+            for d in ds:
+                if d[0] == 'itf':
+                    for e in d[3]:
+                        e[0] = e[0] + 'Rev'
+                elif d[0] == 'ns':
+                    walk(d[2])
+        walk(r['file'])
+        mc = r['cfg']['ports'].get('mc')
+        if mc:
+            r['cfg'] = dict(r['cfg'])
+            r['cfg']['ports'] = dict(r['cfg']['ports'], mc=[mc[0], mc[1] + 'Rev', mc[2], mc[3] + 'Rev'])
+        return r
+    probes = []
+    for _ in range(6 if tier == 'quick' else 60):
+        a = GB.gen_case(rng)
+        b = revision({'file': a['file'], 'cfg': a['cfg']})
+        probes.append({'models': [a['file'], b['file']], 'cfg_a': a['cfg'], 'cfg_b': b['cfg']})
+    pres = run_impl('build_worker', {'cases': [dict(op='collide', **p) for p in probes]}, timeout=3000)['results']
+    pmodel = run_model([[601, BC.templates_for(p['cfg_b'].get('sf_prefix')), G.json_sx(dznjson.to_json(p['models'][1])), BC.cfg_sx(p['cfg_b'])] for p in probes])
+    collided = 0
+    for p, r, m in zip(probes, pres, pmodel):
+        if 'ok' not in r:
+            if nv < 5:
+                nv += 1
+                rep.violation(f'identity-collision probe crashed: {r}', {'probe': p})
+            continue
+        if not r['ok']['collided']:
+            continue
+        collided += 1
+        rep.case(p, shape='identity collision')
+        io, mm = BC.impl_outcome({'ok': r['ok']['res']}), BC.model_outcome(m)
+        d = None
+        if io[0] != mm[0]:
+            d = f'{io[0]} ({str(io[1])[:80]}) vs {mm[0]} ({str(mm[1])[:80]})'
+        elif io[0] == 'ok':
+            d = BC.first_diff([f[:2] + [f[3]] for f in io[1]], mm[1])
+        if d and nv < 5:
+            nv += 1
+            rep.violation('a build whose parsed model occupies the memory address of an earlier, dropped model differs from the build from a fresh '
+                          f'state: {d}', {'probe': p, 'how': 'op collide in harness/workers/build_worker.py: build A, drop it, gc, wrap B in new FileContents objects until id() equals A\'s'})
+    rep.extra['identity_collisions_achieved'] = f'{collided}/{len(probes)}'
     gate = proof_gate('C12')
     return rep.finish(gate, 'histories of 2-6 builds in one interpreter over 1-3 shared parsed models with valid, variant and faulty '
                       'configurations; deep snapshots of model and configuration before/after every build; every result compared '
